@@ -261,8 +261,17 @@ def run_case(spec):
                 res["sample"] = {"program": prog, "mode": mode, "writes": len(ref), "crash_points": len(ref) * len(crash.PHASES)}
         else:
             prog = make_program(rng, big=True)
+            if spec["i"] % 4 == 1:
+                # a finished task with 257-330 direct children ahead of the rest (breadth beyond what the generator reaches)
+                g = gen.ProgGen(rng, max_nodes=10**6, value_depth=0)
+                a = g.act(99, force_style="with")
+                a["outcome"] = "ok"
+                a.pop("exc", None)
+                a["children"] = [g.msg() for _ in range(rng.randint(257, 330))]
+                prog = [a] + prog
+                c["programs_with_very_wide_task"] = 1
             mode = MODES[spec["i"] % 3]
-            repeat = 30
+            repeat = 30 if spec["i"] % 4 != 1 else 8
             t_ref = time.monotonic()
             ref, err = reference_of(prog, mode, tmpdir, repeat)
             t_ref = time.monotonic() - t_ref
